@@ -24,7 +24,8 @@ out=subprocess.run(['ctest','--test-dir',wt+'/_build','-j4','--timeout','900'],c
 failed=set(re.findall(r'- (\S+) \(',out))&set(stable)
 still=[]
 for t in sorted(failed):   # port collisions etc.: retry serially
-    r=subprocess.run(['ctest','--test-dir',wt+'/_build','-R','^'+t+'$','--timeout','900'],capture_output=True,text=True)
+    # in a private network namespace: the fixed ports (8080 ...) cannot collide with other runs on this machine
+    r=subprocess.run(['unshare','-n','sh','-c','ip link set lo up; ctest --test-dir %s/_build -R "^%s$" --timeout 900'%(wt,t)],capture_output=True,text=True)
     if '100% tests passed' not in r.stdout: still.append(t)
 print("RESULT baseline_stable=%d failed_after_retry=%s"%(len(stable),still))
 open(sys.argv[2],'w').write(','.join(still))
